@@ -388,7 +388,7 @@ impl ListenerRegistry {
         for route in self
             .routes
             .iter()
-            .filter(|route| route.payload_types.contains(&pt))
+            .filter(|route| !route.tx.is_closed() && route.payload_types.contains(&pt))
         {
             if let Some(existing) = selected {
                 if !existing.same_channel(&route.tx) {
@@ -400,6 +400,15 @@ impl ListenerRegistry {
         }
 
         selected.cloned()
+    }
+
+    /// True when some live receiver lists `pt`. A packet whose payload type is
+    /// listed (by one receiver or ambiguously by several) belongs to one of those
+    /// media sections and must not fall back to the provisional receiver.
+    fn payload_type_is_listed(&self, pt: u8) -> bool {
+        self.routes
+            .iter()
+            .any(|route| !route.tx.is_closed() && route.payload_types.contains(&pt))
     }
 
     fn single_provisional(&self) -> Option<mpsc::Sender<(RtpPacket, SocketAddr)>> {
@@ -1123,7 +1132,7 @@ impl PacketReceiver for RtpTransport {
                     bind_ssrc = selected.is_some();
                 }
 
-                if selected.is_none() {
+                if selected.is_none() && !listeners.payload_type_is_listed(pt) {
                     selected = listeners.single_provisional();
                     bind_ssrc = false;
                 }
